@@ -105,7 +105,7 @@ def _job(args):
         return idempotent("release", "server.AppNamespace.release_nameplate", {"name": "str", "side": "str", "when": "real"}, timeout_ms)
     if which == "open":
         return idempotent("open", "server.AppNamespace.open_mailbox", {"mailbox_id": "str", "side": "str", "when": "real"},
-                          timeout_ms, skip_requires=("id_not_foreign",))
+                          timeout_ms)
     return close_composition(timeout_ms)
 
 
@@ -145,9 +145,6 @@ def close_composition(timeout_ms):
     oargs = {"mailbox_id": mid, "side": side, "when": when}
     s2 = Step("server.AppNamespace.open_mailbox", s1.post, oargs, app, "reopen")
     for n, t in s2.requires:
-        if n == "id_not_foreign":
-            hyps = hyps + [t]          # F2 is excluded at the event level
-            continue
         out.append(prove("C14.close.reopen_admissible.%s" % n, hyps, t, timeout_ms))
     hyps2 = hyps + [t for _, t in s2.requires]
     for (exc, name, whenc, posts, fields, tags, iff) in s2.raises:
